@@ -289,7 +289,9 @@ let num_int = function
 | [] -> None
 | d :: r ->
   if N.eqb d (Npos (Coq_xO (Coq_xO (Coq_xO (Coq_xO (Coq_xI Coq_xH))))))
-  then num_after_int r
+  then (match r with
+        | [] -> num_after_int r
+        | d2 :: _ -> if digit d2 then None else num_after_int r)
   else if digit d then num_after_int (digits r) else None
 
 (** val num_rest : coq_N list -> coq_N list option **)
